@@ -8,6 +8,8 @@
                   unique physical identity `fid`, `senth` records what was emitted)
      PeerBad     (the peer closed / reset / emitted undecodable octets)
      ReaderStep  (the reader task consumed the next item: deliver, or stop)
+     Abandon i   (the Receiver of waiter i no longer exists: the caller dropped the ResponseFuture, or
+                  send_message failed in its write after registering and returned Err)
    Answer bytes segmentation is below this granularity: Codec::decode hands the reader whole frames
    (C15/C16 cover the segmentation).
 
@@ -18,6 +20,7 @@
                                                                 (causal peer, one answer per id)
      PeerBad    : False                                         (connection not cut)
      ReaderStep : True
+     Abandon i  : i < nw s /\ ws s i <> WPending                (a future is dropped only once it has completed)
    all_ok es s : every event of es satisfies its guard in the state reached before it.
    all_ok_wf   : the same without the guard on WireOut (write may precede register). *)
 Require Import DV.Base.Bytes DV.Model.Client DV.Proofs.ClientFacts.
@@ -72,6 +75,29 @@ Theorem C11_write_first_refuted :
     (forall es', ws (run (es ++ es')) i = WDropped).
 Proof. exact C11_write_first_refuted_lemma. Qed.
 Print Assumptions C11_write_first_refuted.
+
+(* Outside the property's quantifier, recorded because the model covers it: a future dropped while
+   still pending leaves its Sender in the table; the answer to that request then makes the reader stop
+   (sender.send fails), and every other outstanding future fails although the peer answers it. *)
+Theorem C11_dropped_pending_future_stops_reader : forall s f q i, closed s = false -> inq s = IFrame f :: q ->
+  lookup (table s) (hop f) = Some i -> gone s i = true -> closed (step s ReaderStep) = true.
+Proof. exact abandoned_answer_stops_reader. Qed.
+Print Assumptions C11_dropped_pending_future_stops_reader.
+
+Theorem C11_dropped_pending_future_collateral :
+  let es := [Register 1%N; WireOut 1%N; Register 2%N; WireOut 2%N; Abandon 0; Peer 1%N; ReaderStep; Peer 2%N; ReaderStep] in
+  closed (run es) = true /\ outcomes (run es) = [WDropped; WDropped] /\
+  (exists a, a < nsent (run es) /\ senth (run es) a = whop (run es) 1).
+Proof. exact abandoned_collateral_witness. Qed.
+Print Assumptions C11_dropped_pending_future_collateral.
+
+(* futures dropped after they completed do not disturb the matching (non-vacuity of the relaxed guard) *)
+Theorem C11_drop_after_completion_example :
+  let es := [Register 1%N; WireOut 1%N; Peer 1%N; ReaderStep; Abandon 0; Register 2%N; WireOut 2%N; Peer 2%N; ReaderStep] in
+  all_ok es init /\ closed (run es) = false /\
+  outcomes (run es) = [WGot {| hop := 1%N; fid := 0 |}; WGot {| hop := 2%N; fid := 1 |}].
+Proof. exact abandon_after_completion_example. Qed.
+Print Assumptions C11_drop_after_completion_example.
 
 (* non-vacuity: three requests, answer 1 consumed before anything else happens, answers 3 and 2 reordered *)
 Theorem C11_matching_example :
